@@ -342,6 +342,7 @@ def main(argv=None):
     ap.add_argument("--replay", default=None)
     ap.add_argument("--workers", type=int, default=int(os.environ.get("VERIF_WORKERS", "0")))
     ap.add_argument("--examples", type=int, default=0, help="override examples per worker (calibration only)")
+    ap.add_argument("--no-replays", action="store_true", help="skip the replay tier (audit only: shows what the generated search finds by itself)")
     args = ap.parse_args(argv)
 
     prop_id = args.prop.upper()
@@ -392,6 +393,8 @@ def main(argv=None):
     committed = sorted(
         os.path.join(REPLAY_DIR, f) for f in os.listdir(REPLAY_DIR) if f.startswith(prop_id + "-") and f.endswith(".json")
     ) if os.path.isdir(REPLAY_DIR) else []
+    if args.no_replays:
+        committed = []
     for path in committed:
         try:
             status, sig, msg = replay_file(prop, path, known)
